@@ -213,6 +213,8 @@ def special_cases(_=None):
   roots = [
       collections.defaultdict(list, a=[1], b=(2,)),
       pool.Pt(1, [pool.Pt(2, 3)]),
+      pool.Span([1], {'k': pool.LabelledPt([2], (3,))}),
+      fdl.Config(pool.fc, pool.Span(fdl.Config(pool.fb, [1]), 2), q=[pool.LabelledPt([4])]),
       [(), [], {}, ((),)],
       fdl.Config(pool.fa, 1, 2, 3, [4], (5,), k={'z': 0}, extra=pool.Pt(1, 2)),
   ]
@@ -224,9 +226,20 @@ def special_cases(_=None):
       bad(f'identity traversal of {type(root).__name__} changed the structure/type')
     if isinstance(root, collections.defaultdict) and rebuilt.default_factory is not root.default_factory:
       bad('defaultdict factory lost')
-    for v, p in daglish.iterate(root, memoized=False):
+    got = list(daglish.iterate(root, memoized=False))
+    for v, p in got:
       if daglish.follow_path(root, p) is not v:
         bad('unsound path in a special structure')
+    gp = collections.Counter(daglish.path_str(p) for _, p in got)
+    ep = collections.Counter(daglish.path_str(p) for p, _ in all_paths(root))
+    if gp != ep:
+      bad(f'un-memoized traversal of a {type(root).__name__} reported paths {sorted((gp - ep).elements())[:6]} '
+          f'extra, {sorted((ep - gp).elements())[:6]} missing')
+    mem_ids = {id(v) for v, _ in daglish.iterate(root, memoized=True) if daglish.is_memoizable(v)}
+    want_ids = {id(v) for _, v in all_paths(root) if daglish.is_memoizable(v)}
+    if mem_ids != want_ids:
+      bad(f'memoized traversal of a {type(root).__name__} visited {len(mem_ids)} distinct memoizable objects, '
+          f'expected {len(want_ids)}')
   return len(roots), len(roots), viols, []
 
 
